@@ -6,7 +6,7 @@ Q = ['E_Uni', 'E_Int', 'E_Ser', 'E_Exc', 'E_Ref', 'E_Vals', 'E_P257', 'E_Neg']
 HARNESSES = []
 for t in ETYPES:
     for k in ('uper', 'oer'):
-        if (t, k) == ('E_MinU', 'uper'):
+        if (t, k) in (('E_MinU', 'uper'), ('E_ExtA', 'uper')):
             continue   # unconstrained-length UPER integer: too slow, see DESIGN (covered for T_IntNeg bounded)
         tiers = ('quick', 'thorough') if t in Q else ('thorough',)
         hb = ['-DINT_HARNESS_BOUND=32767LL'] if (t, k) == ('E_ExtA', 'uper') else []
